@@ -14,9 +14,21 @@
     selected or written) with the per-file transformer as an explicit function [changed].
     What is an oracle (tested by harness/c05.py, not proved): that `Path.rglob("*")` / `is_file` / `is_symlink`
     behave like [files_for_directory] on a [tree]; that CPython's `fnmatch` is [fnmatch] (differentially tested);
-    that the transformer writes only the file it is given (observed through the outside tree's hash). *)
+    that the transformer writes only the file it is given (observed through the outside tree's hash).
+
+    The whole-run statement [C05_writes_subset] is about Model/Run.v's [run]: every path whose content a run changes is
+    a regular file of the tree in the selection of one of the codemods, OR THE PATH OF A DEPENDENCY MANIFEST (the
+    package stores) - the property text has no such exception, it is made explicit here and judged by the
+    correspondence: [C05_manifest_candidates] says, for the variant of the source read by the translator, which
+    manifests those are (pinned tree: also symlinked ones, also excluded ones - refuted by witness; repaired: regular
+    files of the tree that no file-level exclude pattern matches).  That a manifest matching no INCLUDE pattern is
+    updated at all is intended behaviour the property text does not allow for: listed finding
+    kf_c05_manifest_written_not_included.
+    Table-indexed statements: [C05_defaults] (Tables.ff_exclude_sentinel), [C05_manifest_candidates] and
+    [C05_nothing_outside_tree_written] (Tables.manifest_locations / manifest_exclusion). *)
 From Coq Require Import Strings.String.
 From CM Require Import Base.GlobLit Base.Types_Glob Model.Glob Spec.GlobSpec Spec.GlobDefaults Proofs.GlobFacts Generated.Tables.
+From CM Require Model.Run Proofs.RunWritesFacts.
 
 Definition defaults : list str * list str := (default_included_paths, default_excluded_paths).
 
@@ -66,39 +78,57 @@ Proof.
 Qed.
 Print Assumptions C05_line_patterns_never_exclude_file.
 
-(** ** The `None` sentinels of context.py: defaults exactly when the user gave no pattern; SAST: no default excludes *)
-Theorem C05_defaults :
-  (* find-and-fix, no user pattern: the default lists of the generated tables *)
-  (forall rels f, In f (find_and_fix_paths defaults rels [] []) <->
-                  In f rels /\ Selected default_included_paths default_excluded_paths f)
-  (* a non-empty user list replaces the corresponding default list entirely *)
-  /\ (forall DI DE rels exc inc f, exc <> [] -> inc <> [] ->
-        (In f (find_and_fix_paths (DI, DE) rels exc inc) <-> In f rels /\ Selected inc exc f))
-  /\ (forall DI DE rels exc f, exc <> [] ->
-        (In f (find_and_fix_paths (DI, DE) rels exc []) <-> In f rels /\ Selected DI exc f))
-  /\ (forall DI DE rels inc f, inc <> [] ->
-        (In f (find_and_fix_paths (DI, DE) rels [] inc) <-> In f rels /\ Selected inc DE f))
-  (* SAST-driven: the user's excludes as they are, never the default excludes; includes default to the registry's *)
-  /\ (forall defs regdef paths exc inc f,
+(** ** The sentinels of context.py.  What the property demands of a find-and-fix run: the user's include list, else the
+    default one; the user's FILE-LEVEL exclude patterns, else the default ones (`path:line` patterns never act at file
+    level, so a list holding only such patterns leaves the defaults in force). *)
+Definition FFSpec (DI DE rels exc inc : list str) (f : str) : Prop :=
+  In f rels /\ Selected (or_default (or_none inc) DI) (or_default (or_none (file_level exc)) DE) f.
+
+Definition w_line_only_exclude : list str := [lit "a.py:2"].
+Definition w_default_excluded_file : str := lit "tests/c.py".
+
+Definition C05_defaults_statement (v : exclude_sentinel_form) : Prop :=
+  match v with
+  | FileLevelOrNone =>
+      forall DI DE rels exc inc f, In f (find_and_fix_paths v (DI, DE) rels exc inc) <-> FFSpec DI DE rels exc inc f
+  | RawOrNone =>
+      (* `--path-exclude a.py:2` switches the default excludes off: tests/c.py is selected *)
+      exists DI DE rels exc inc f, In f (find_and_fix_paths v (DI, DE) rels exc inc) /\ ~ FFSpec DI DE rels exc inc f
+  end.
+Lemma C05_defaults_all v : C05_defaults_statement v.
+Proof.
+  destruct v; simpl.
+  - exists pinned_included, pinned_excluded, [w_default_excluded_file], w_line_only_exclude, [], w_default_excluded_file.
+    split; [vm_compute; left; reflexivity |].
+    intros [_ H]. apply selectedb_Selected in H. vm_compute in H. discriminate.
+  - intros DI DE rels exc inc f. rewrite In_find_and_fix_paths. reflexivity.
+Qed.
+Theorem C05_defaults : C05_defaults_statement ff_exclude_sentinel.
+Proof. exact (C05_defaults_all ff_exclude_sentinel). Qed.
+Print Assumptions C05_defaults.
+
+(** Whatever the variant: what is selected is Selected by the lists that variant puts in force (no third behaviour). *)
+Theorem C05_defaults_either_variant : forall v DI DE rels exc inc f,
+  In f (find_and_fix_paths v (DI, DE) rels exc inc) <->
+  In f rels /\ Selected (or_default (or_none inc) DI) (or_default (exclude_sentinel v exc) DE) f.
+Proof. intros. apply In_find_and_fix_paths. Qed.
+Print Assumptions C05_defaults_either_variant.
+
+(** SAST-driven: the user's excludes as they are, never the default excludes; includes default to the registry's *)
+Theorem C05_sast_no_default_excludes :
+  (forall defs regdef paths exc inc f,
         In f (filter_paths defs regdef paths exc inc) <-> In f paths /\ Selected (included_paths inc regdef) exc f)
   /\ (forall defs regdef paths f,
         In f (filter_paths defs regdef paths [] []) <->
         In f paths /\ exists p, In p regdef /\ GlobMatches (before_colon p) f).
 Proof.
-  split; [| split; [| split; [| split; [| split]]]].
-  - intros rels f. unfold find_and_fix_paths. rewrite In_match_files. reflexivity.
-  - intros DI DE rels exc inc f He Hi. unfold find_and_fix_paths. rewrite In_match_files. simpl.
-    rewrite !or_none_default by assumption. reflexivity.
-  - intros DI DE rels exc f He. unfold find_and_fix_paths. rewrite In_match_files. simpl.
-    rewrite or_none_default by assumption. reflexivity.
-  - intros DI DE rels inc f Hi. unfold find_and_fix_paths. rewrite In_match_files. simpl.
-    rewrite or_none_default by assumption. reflexivity.
+  split.
   - intros defs regdef paths exc inc f. unfold filter_paths. rewrite In_match_files. reflexivity.
   - intros defs regdef paths f. unfold filter_paths. rewrite In_match_files. simpl. unfold Selected. split.
     + intros [Hr [Hinc _]]. split; [exact Hr | exact Hinc].
     + intros [Hr Hinc]. split; [exact Hr |]. split; [exact Hinc |]. intros [p [[] _]].
 Qed.
-Print Assumptions C05_defaults.
+Print Assumptions C05_sast_no_default_excludes.
 
 (** ** What the default lists mean (stated for the lists of the pinned tree; the premise is checked by the harness
     against the generated tables, so a change of the lists is reported instead of silently weakening this). *)
@@ -125,33 +155,122 @@ Qed.
 Theorem C05_default_lists_char : C05_default_lists_statement default_included_paths default_excluded_paths.
 Proof. exact (C05_default_lists_all default_included_paths default_excluded_paths). Qed.
 Print Assumptions C05_default_lists_char.
+(** The premises hold of the lists extracted from the current source (if DEFAULT_*_PATHS change this stops checking,
+    and harness/c05.py searches with witness paths for the patterns that were added or removed). *)
+Example C05_default_lists_premises_hold_on_generated_tables :
+  default_included_paths = pinned_included /\ default_excluded_paths = pinned_excluded.
+Proof. split; reflexivity. Qed.
 
 (** ** Lifting to a tree: only regular files of the tree (never a link, never something behind a link) are selected;
-    the files written are exactly the selected files with the right suffix on which the transformer reports a change. *)
-Theorem C05_no_symlink_selected : forall defs exts t exc inc f,
-  In f (ff_files_to_analyze defs exts (files_for_directory t) exc inc) -> In (f, NFile) t.
+    the selected files on which the transformer reports a change are exactly ... *)
+Theorem C05_no_symlink_selected : forall v defs exts t exc inc f,
+  In f (ff_files_to_analyze v defs exts (files_for_directory t) exc inc) -> In (f, NFile) t.
 Proof.
-  intros defs exts t exc inc f H. apply In_ff_files_to_analyze in H. destruct H as [H _].
-  unfold find_and_fix_paths in H. apply In_match_files in H. destruct H as [H _].
-  apply In_files_for_directory. exact H.
+  intros v defs exts t exc inc f H. apply In_ff_files_to_analyze in H. destruct H as [H _].
+  apply In_find_and_fix_paths in H. destruct H as [H _]. apply In_files_for_directory. exact H.
 Qed.
 Print Assumptions C05_no_symlink_selected.
 
-Definition writes (defs : list str * list str) (exts : list str) (t : tree) (exc inc : list str)
-           (changed : str -> bool) : list str :=
-  List.filter changed (ff_files_to_analyze defs exts (files_for_directory t) exc inc).
+Definition selected_changed (v : exclude_sentinel_form) (defs : list str * list str) (exts : list str) (t : tree)
+           (exc inc : list str) (changed : str -> bool) : list str :=
+  List.filter changed (ff_files_to_analyze v defs exts (files_for_directory t) exc inc).
 
-Theorem C05_writes_subset : forall defs exts t exc inc changed f,
-  In f (writes defs exts t exc inc changed) <->
+Theorem C05_selected_changed_char : forall v defs exts t exc inc changed f,
+  In f (selected_changed v defs exts t exc inc changed) <->
   In (f, NFile) t
-  /\ Selected (or_default (or_none inc) (fst defs)) (or_default (or_none exc) (snd defs)) f
+  /\ Selected (or_default (or_none inc) (fst defs)) (or_default (exclude_sentinel v exc) (snd defs)) f
   /\ (exts <> [] -> mem_str (suffix_of f) exts = true)
   /\ changed f = true.
 Proof.
-  intros. unfold writes. rewrite filter_In, In_ff_files_to_analyze. unfold find_and_fix_paths.
-  rewrite In_match_files, In_files_for_directory. tauto.
+  intros. unfold selected_changed. rewrite filter_In, In_ff_files_to_analyze, In_find_and_fix_paths, In_files_for_directory. tauto.
+Qed.
+Print Assumptions C05_selected_changed_char.
+
+(** ** The whole run (Model/Run.v).  The configuration is the one context.py computes from the tree and the patterns;
+    everything else of the run (pipelines, transformers, detectors, writers, the codemod list, the initial file
+    system, the package stores) is arbitrary.  A path whose content the run changes is
+      - a regular file of the tree accepted by [fsel K] for some codemod K of the run, and, when K is a find-and-fix
+        codemod, Selected by the lists in force; or
+      - the manifest exception: the path of one of the package stores. *)
+Theorem C05_writes_subset :
+  forall v tb (tr : Type) parse code T S R diff W fsel dry scan t exc inc Ks fs stores p,
+  let cfg := {| Run.dry_run := dry; Run.all_files := files_for_directory t;
+                Run.ff_paths := find_and_fix_paths v defaults (files_for_directory t) exc inc; Run.scan_all := scan |} in
+  Run.lookup (Run.final_fs (Run.run tb tr parse code T S R diff W fsel cfg Ks fs stores)) p <> Run.lookup fs p ->
+  (In (p, NFile) t /\ exists K, In K Ks /\ fsel K p = true /\
+     (Run.cbase K = Run.FindAndFix ->
+      Selected (or_default (or_none inc) default_included_paths) (or_default (exclude_sentinel v exc) default_excluded_paths) p))
+  \/ (exists st, In st stores /\ Run.st_path st = p).
+Proof.
+  intros v tb tr parse code T S R diff W fsel dry scan t exc inc Ks fs stores p cfg Hne.
+  apply RunWritesFacts.run_frame in Hne. destruct Hne as [[K [HK Hin]] | Hst]; [left | right; exact Hst].
+  unfold RunWritesFacts.scope in Hin. apply filter_In in Hin. destruct Hin as [Hin Hsel].
+  destruct (Run.cbase K) eqn:Eb; simpl in Hin.
+  - apply In_find_and_fix_paths in Hin. destruct Hin as [Hf Hs]. split; [apply In_files_for_directory; exact Hf |].
+    exists K. split; [exact HK | split; [exact Hsel | intros _; exact Hs]].
+  - split; [apply In_files_for_directory; exact Hin |]. exists K. split; [exact HK | split; [exact Hsel | intros Hc; rewrite Eb in Hc; discriminate Hc]].
 Qed.
 Print Assumptions C05_writes_subset.
+
+(** ** Which manifests the package stores are *)
+Definition w_link_tree : tree := [(lit "requirements.txt", NLinkFile); (lit "a.py", NFile)].
+Definition w_venv_tree : tree := [(lit "venv", NDir); (lit "venv/requirements.txt", NFile); (lit "a.py", NFile)].
+
+Definition ManifestOK (defs : list str * list str) (t : tree) (exc : list str) (m : str) : Prop :=
+  In (m, NFile) t /\
+  ~ (exists p, In p (or_default (or_none (file_level exc)) (snd defs)) /\ has_colon p = false /\ GlobMatches p m).
+
+Definition C05_manifest_statement (lf : manifest_loc_form) (ef : manifest_excl_form) : Prop :=
+  match lf, ef with
+  | SkipSymlinks, FileLevelExcludes =>
+      forall defs t exc m, In m (manifest_candidates lf ef defs t exc) -> ManifestOK defs t exc m
+  | _, _ => exists t exc m, In m (manifest_candidates lf ef pinned_defaults t exc) /\ ~ ManifestOK pinned_defaults t exc m
+  end.
+Lemma C05_manifest_all lf ef : C05_manifest_statement lf ef.
+Proof.
+  destruct lf, ef; cbv beta iota delta [C05_manifest_statement].
+  - exists w_link_tree, [], (lit "requirements.txt"). split; [vm_compute; left; reflexivity |].
+    intros [[H | [H | []]] _]; discriminate.
+  - exists w_link_tree, [], (lit "requirements.txt"). split; [vm_compute; left; reflexivity |].
+    intros [[H | [H | []]] _]; discriminate.
+  - exists w_venv_tree, [], (lit "venv/requirements.txt"). split; [vm_compute; left; reflexivity |].
+    intros [_ H]. apply H. exists (lit "venv/**"). split; [vm_compute; tauto |]. split; [reflexivity |].
+    apply fnmatch_GlobMatches. vm_compute. reflexivity.
+  - intros defs t exc m H. split.
+    + destruct (In_manifest_candidates_named _ _ _ _ _ _ H) as [n [Hin [Hk _]]]. destruct n; try discriminate. exact Hin.
+    + unfold manifest_candidates in H. apply filter_In in H. destruct H as [_ H]. apply manifest_not_excluded_spec. exact H.
+Qed.
+Theorem C05_manifest_candidates : C05_manifest_statement manifest_locations manifest_exclusion.
+Proof. exact (C05_manifest_all manifest_locations manifest_exclusion). Qed.
+Print Assumptions C05_manifest_candidates.
+
+(** "nothing outside the target directory - directly or through symlinks - is ever written": when the package stores
+    are the manifest candidates, every changed path is a regular file of the tree (which lists only what is reachable
+    without traversing a link).  Refuted for the pinned [AllNamed]: a symlinked manifest is a candidate. *)
+Definition C05_outside_statement (lf : manifest_loc_form) : Prop :=
+  match lf with
+  | SkipSymlinks =>
+      forall ef v tb (tr : Type) parse code T S R diff W fsel dry scan t exc inc Ks fs stores p,
+      let cfg := {| Run.dry_run := dry; Run.all_files := files_for_directory t;
+                    Run.ff_paths := find_and_fix_paths v defaults (files_for_directory t) exc inc; Run.scan_all := scan |} in
+      (forall st, In st stores -> In (Run.st_path st) (manifest_candidates lf ef defaults t exc)) ->
+      Run.lookup (Run.final_fs (Run.run tb tr parse code T S R diff W fsel cfg Ks fs stores)) p <> Run.lookup fs p ->
+      In (p, NFile) t
+  | AllNamed => exists ef t exc m, In m (manifest_candidates lf ef pinned_defaults t exc) /\ ~ In (m, NFile) t
+  end.
+Lemma C05_outside_all lf : C05_outside_statement lf.
+Proof.
+  destruct lf; cbv beta iota delta [C05_outside_statement].
+  - exists NoManifestExclusion, w_link_tree, [], (lit "requirements.txt"). split; [vm_compute; left; reflexivity |].
+    intros [H | [H | []]]; discriminate.
+  - intros ef v tb tr parse code T S R diff W fsel dry scan t exc inc Ks fs stores p cfg Hst Hne.
+    apply (C05_writes_subset v tb tr parse code T S R diff W fsel dry scan t exc inc Ks fs stores p) in Hne.
+    destruct Hne as [[H _] | [st [Hin <-]]]; [exact H |].
+    destruct (In_manifest_candidates_named _ _ _ _ _ _ (Hst st Hin)) as [n [Hn [Hk _]]]. destruct n; try discriminate. exact Hn.
+Qed.
+Theorem C05_nothing_outside_tree_written : C05_outside_statement manifest_locations.
+Proof. exact (C05_outside_all manifest_locations). Qed.
+Print Assumptions C05_nothing_outside_tree_written.
 
 Theorem C05_sast_selection : forall defs regdef exts has_result t exc inc f,
   In f (sast_files_to_analyze defs regdef exts has_result (files_for_directory t) exc inc) <->
@@ -167,17 +286,34 @@ Definition ex_tree : tree :=
    (lit "notes.txt", NFile); (lit "lnk.py", NLinkFile); (lit "lnkdir", NLinkDir); (lit "sub/x[1].py", NFile)].
 
 Example C05_example_defaults :
-  ff_files_to_analyze pinned_defaults [lit ".py"] (files_for_directory ex_tree) [] []
+  ff_files_to_analyze FileLevelOrNone pinned_defaults [lit ".py"] (files_for_directory ex_tree) [] []
   = [lit "a.py"; lit "sub/b.py"; lit "sub/x[1].py"].
 Proof. vm_compute. reflexivity. Qed.
 
-Example C05_example_line_exclude_drops_default_excludes :
-  ff_files_to_analyze pinned_defaults [lit ".py"] (files_for_directory ex_tree) [lit "a.py:2"] []
-  = [lit "a.py"; lit "sub/b.py"; lit "sub/x[1].py"; lit "tests/c.py"].
-Proof. vm_compute. reflexivity. Qed.
+Example C05_example_line_only_exclude :
+  (* as the pinned tree is written: the defaults are switched off *)
+  ff_files_to_analyze RawOrNone pinned_defaults [lit ".py"] (files_for_directory ex_tree) [lit "a.py:2"] []
+  = [lit "a.py"; lit "sub/b.py"; lit "sub/x[1].py"; lit "tests/c.py"]
+  (* as the property demands: they stay in force *)
+  /\ ff_files_to_analyze FileLevelOrNone pinned_defaults [lit ".py"] (files_for_directory ex_tree) [lit "a.py:2"] []
+  = [lit "a.py"; lit "sub/b.py"; lit "sub/x[1].py"].
+Proof. vm_compute. split; reflexivity. Qed.
+
+Example C05_example_manifests :
+  manifest_names = [lit "pyproject.toml"; lit "setup.py"; lit "requirements.txt"; lit "setup.cfg"]
+  /\ manifest_candidates AllNamed NoManifestExclusion pinned_defaults
+       [(lit "requirements.txt", NLinkFile); (lit "venv/requirements.txt", NFile); (lit "sub/setup.cfg", NFile); (lit "setup.py", NDir)] []
+     = [lit "requirements.txt"; lit "venv/requirements.txt"; lit "sub/setup.cfg"]
+  /\ manifest_candidates SkipSymlinks FileLevelExcludes pinned_defaults
+       [(lit "requirements.txt", NLinkFile); (lit "venv/requirements.txt", NFile); (lit "sub/setup.cfg", NFile); (lit "setup.py", NDir)] []
+     = [lit "sub/setup.cfg"]
+  /\ manifest_candidates SkipSymlinks FileLevelExcludes pinned_defaults
+       [(lit "requirements.txt", NFile); (lit "sub/setup.cfg", NFile)] [lit "*.txt"; lit "sub/setup.cfg:3"]
+     = [lit "sub/setup.cfg"].
+Proof. vm_compute. repeat split; reflexivity. Qed.
 
 Example C05_example_bracket_patterns :
-  ff_files_to_analyze pinned_defaults [lit ".py"] (files_for_directory ex_tree) [lit "sub/[!b]*"] [lit "sub/*"; lit "*.txt"]
+  ff_files_to_analyze FileLevelOrNone pinned_defaults [lit ".py"] (files_for_directory ex_tree) [lit "sub/[!b]*"] [lit "sub/*"; lit "*.txt"]
   = [lit "sub/b.py"]
   /\ fnmatch (lit "sub/x[1].py") (lit "sub/x[1].py") = false
   /\ fnmatch (lit "sub/x[1].py") (lit "sub/x[[]1].py") = true
